@@ -316,6 +316,30 @@ impl FilePersist {
         Ok(count)
     }
 
+    /// The file that holds the metadata of `shard`: `<sanitized name>.json`. `sanitize_name`
+    /// is not injective ("a:b_c" and "a_b:c" both give "a_b_c"), so when that file belongs to
+    /// a DIFFERENT shard the newcomer gets a name with a hash of its full name appended -
+    /// otherwise the two shards (relations of two different knowledge graphs) would overwrite
+    /// each other's metadata and one of them would lose its data at the next restart.
+    fn shard_meta_path(&self, shard: &str) -> PathBuf {
+        let dir = self.config.path.join("shards");
+        let stem = sanitize_name(shard);
+        let plain = dir.join(format!("{stem}.json"));
+        let hash = crc32fast::hash(shard.as_bytes());
+        let alternate = dir.join(format!("{stem}-{hash:08x}.json"));
+        if alternate.exists() {
+            return alternate;
+        }
+        let owner = fs::read_to_string(&plain)
+            .ok()
+            .and_then(|c| serde_json::from_str::<ShardMeta>(&c).ok())
+            .map(|m| m.name);
+        match owner {
+            Some(name) if name != shard => alternate,
+            _ => plain,
+        }
+    }
+
     /// Save shard metadata to disk using atomic write-to-temp+rename.
     ///
     /// Writes to `{name}.json.tmp`, calls `sync_all()`, then renames to `{name}.json`.
@@ -323,8 +347,13 @@ impl FilePersist {
     /// or new version - never a corrupt half-written state.
     fn save_shard_meta(&self, meta: &ShardMeta) -> StorageResult<()> {
         let dir = self.config.path.join("shards");
-        let final_path = dir.join(format!("{}.json", sanitize_name(&meta.name)));
-        let tmp_path = dir.join(format!("{}.json.tmp", sanitize_name(&meta.name)));
+        let final_path = self.shard_meta_path(&meta.name);
+        let mut tmp_name = final_path
+            .file_name()
+            .unwrap_or_default()
+            .to_os_string();
+        tmp_name.push(".tmp");
+        let tmp_path = dir.join(tmp_name);
         let content = serde_json::to_string_pretty(meta)
             .map_err(|e| StorageError::Other(format!("Failed to serialize shard metadata: {e}")))?;
 
@@ -706,11 +735,7 @@ impl PersistBackend for FilePersist {
         #[cfg(feature = "verif-hooks")]
         vh::yield_point("persist.delete_shard.wal_filtered");
         // Step 4: Delete the metadata file: the commit point of the drop.
-        let meta_path = self
-            .config
-            .path
-            .join("shards")
-            .join(format!("{}.json", sanitize_name(shard)));
+        let meta_path = self.shard_meta_path(shard);
         if meta_path.exists() {
             let _ = fs::remove_file(&meta_path);
             sync_directory(&self.config.path.join("shards"));
